@@ -520,12 +520,16 @@ class Machine(Interp):
         it = self.force(it, node)
         if isinstance(it, SList):
             return list(it.items)
+        if type(it).__name__ == "SArr":
+            return [it.row(i) for i in range(it.shape[0])]
         if isinstance(it, tuple):
             return list(it)
         if isinstance(it, SSorted):
             return self.iter_concrete(it.inner, node)
         if isinstance(it, SDict):
             return list(it.d.keys())
+        if isinstance(it, SADict):
+            return list(it.keys)
         if isinstance(it, SSet):
             return list(it.s)
         if isinstance(it, str):
@@ -630,6 +634,10 @@ class Machine(Interp):
             if name in o.fields:
                 return o.fields[name]
             return NativeFn("%s.%s" % (o.iface, name), lambda mach, args, kwargs, node, o=o, name=name: mach.call_abstract(o, name, args, kwargs, node))
+        if type(o).__name__ == "SArr":
+            from . import npmodel
+
+            return npmodel.arr_attr(self, o, name, node)
         meth = self.builtin_method(o, name, node)
         if meth is not None:
             return meth
